@@ -59,7 +59,7 @@ theorem C19_flatten_spec {P : Type} [Inhabited P] (shape idx : List ℕ) (net : 
     monotone rounding.
 
     `_partial`: objects without a periodic direction (periodic ones:
-    `C19_g2_roundtrip_periodic_partial`). -/
+    `C19_g2_roundtrip_periodic`). -/
 theorem C19_g2_roundtrip_partial {K : Type} [Field K] [LinearOrder K] (tol : K) (rnd : K → K)
     (hr : ∀ x, rnd (rnd x) = rnd x) (o : Obj K) (ho : (o.mapNum rnd).WF tol)
     (rest : List (Token K)) :
@@ -248,8 +248,9 @@ theorem C19_primitive_record_fields {K : Type} [Field K] [LinearOrder K] [FloorR
   g2ReadPrim_toks aux tol rec h rest
 
 /-- `G2.write` of a PERIODIC object, then `G2.read`.  `o` a curve, surface or volume with exactly
-    one periodic direction `dir` (continuity `k`), all bases valid, control net of the shape the
-    bases demand with `nc ≥ 1` components (`PeriodicWF`).  Then, with `T = end − start`:
+    one periodic direction `dir` (any continuity `k`, ANY number of functions — bases with fewer
+    than `p + k` functions included), all bases valid, control net of the shape the bases demand
+    with `nc ≥ 1` components (`PeriodicWF`).  Then:
 
     * the writer's seam loop succeeds (`openSeams`, i.e. `obj.split(obj.start(dir), dir)` by the
       C07 model of `split`) and `G2.write` produces a record;
@@ -259,16 +260,15 @@ theorem C19_primitive_record_fields {K : Type} [Field K] [LinearOrder K] [FloorR
       `dir`, a valid non-periodic basis on `[start, end]` there, and
     * every control-net fibre of `op` along `dir` evaluates on `[start, end]` (inward sides at the
       ends) to the wrapped-image sum of the corresponding fibre of the periodic `o` — the map of
-      the original object (this is `C07_split_periodic_partial`, i.e. `split_periodic_single` with
-      `hMult_of_exact`, at the split value `start`): the object comes back opened at the seam
-      with identical geometry.
+      the original object (`split_periodic_single_all` with `hMult_of_exact_all`, the guard-free
+      form of `C07_split_periodic_partial`, at the split value `start`): the object comes back
+      opened at the seam with identical geometry.
 
-    `_partial` (guards, all in `PeriodicWF`): one periodic direction; `guard`: at least `p + k`
-    functions in that direction (below it the pinned code is wrong: finding
-    `periodic-seam-split`); `sepR`/`sepL`: no knot other than copies of `start` within the
-    tolerance of `start`; and the formatting is `rnd = id` here (compose with
-    `C19_g2_roundtrip_partial` for the rounded statement). -/
-theorem C19_g2_roundtrip_periodic_partial {K : Type} [Field K] [LinearOrder K]
+    Hypotheses that remain, all fields of `PeriodicWF`: exactly ONE periodic direction
+    (`periodic_dir`, `others`); `sepR`/`sepL`: no knot other than copies of `start` within the
+    tolerance of `start` (tolerance-separated seam); and the formatting is `rnd = id` here (compose
+    with `C19_g2_roundtrip_partial` for the rounded statement). -/
+theorem C19_g2_roundtrip_periodic {K : Type} [Field K] [LinearOrder K]
     [IsStrictOrderedRing K] [FloorRing K] {tol : K} (htol : 0 < tol) (o : Splipy.Obj K)
     (dir k nc : ℕ) (h : Splipy.C19Seam.PeriodicWF tol o dir k nc) (rest : List (Token K)) :
     ∃ op m toks, openSeams tol o = .ok op ∧ g2WriteObj tol o = .ok toks ∧
@@ -288,9 +288,9 @@ theorem C19_g2_roundtrip_periodic_partial {K : Type} [Field K] [LinearOrder K]
   have hx : (o.basis dir).start ≤ (o.basis dir).start ∧ (o.basis dir).start < (o.basis dir).stop :=
     ⟨le_refl _, (h.valid dir hd).start_lt_stop⟩
   obtain ⟨op, m, hsplit, hvalid, hper, hord, hnum, hstart, hstop, hoth, hrat, hshp, hfib⟩ :=
-    Splipy.split_periodic_single o dir hd h.hax (h.valid dir hd) k h.periodic_dir h.guard h.hshape
+    Splipy.split_periodic_single_all o dir hd h.hax (h.valid dir hd) k h.periodic_dir h.hshape
       tol (o.basis dir).start hx
-      (Splipy.hMult_of_exact o dir hd (h.valid dir hd) k h.periodic_dir h.guard h.hshape htol hx
+      (Splipy.hMult_of_exact_all o dir hd (h.valid dir hd) k h.periodic_dir h.hshape htol hx
         h.sepR h.sepL)
   obtain ⟨hopen, hwf⟩ := Splipy.C19Seam.seam_open htol h op m hsplit hvalid hper hnum hoth hshp
   have hstop' : (op.basis dir).stop = (o.basis dir).stop := by rw [hstop]; ring
@@ -407,7 +407,7 @@ theorem C19_exPer_roundtrip :
        [[8 / 3, -1], [4, -2], [9, 5], [-3, 7], [0, 1], [8 / 3, -1]], false, 0) := by
   decide +kernel
 
-/-- The hypotheses of `C19_g2_roundtrip_periodic_partial` hold for it (`p = 3`, `k = 1`, `n = 4`,
+/-- The hypotheses of `C19_g2_roundtrip_periodic` hold for it (`p = 3`, `k = 1`, `n = 4`,
     `tol = 10⁻¹⁰`). -/
 theorem C19_exPer_wf : Splipy.C19Seam.PeriodicWF (1 / 10 ^ 10 : ℚ) C19_exPer 0 1 2 where
   pardim := Or.inl rfl
@@ -427,7 +427,6 @@ theorem C19_exPer_wf : Splipy.C19Seam.PeriodicWF (1 / 10 ^ 10 : ℚ) C19_exPer 0
     intro d hd hne
     have : d < 1 := hd
     omega
-  guard := by decide +kernel
   sepR := by
     intro i hi
     have hi' : i < 9 := hi
@@ -436,3 +435,56 @@ theorem C19_exPer_wf : Splipy.C19Seam.PeriodicWF (1 / 10 ^ 10 : ℚ) C19_exPer 0
     intro i hi
     have hi' : i < 9 := hi
     interval_cases i <;> norm_num [Splipy.Obj.basis, C19_exPer, Splipy.Basis.start, Splipy.Basis.kn]
+
+/-! A periodic witness BELOW the former guard: quadratic, continuity 1, only two control points
+(`n = 2 < p + k = 4`), uniform knots, period 2. -/
+
+def C19_exSmall : Splipy.Obj ℚ :=
+  { bases := #[⟨3, #[-2, -1, 0, 1, 2, 3, 4], 1⟩],
+    cps := { shape := [2, 2], data := #[0, 1, 4, -2] }, rational := false }
+
+/-- Kernel evaluation: the record reads back as the open quadratic on `[0, 2]` with four control
+    points, first equal to last (the values the repaired `G2.write` prints: `2 -0.5`, `4 -2`,
+    `0 1`, `2 -0.5`). -/
+theorem C19_exSmall_roundtrip :
+    (match g2WriteObj (1 / 10 ^ 10) C19_exSmall with
+      | .ok toks =>
+        match g2ReadSpline (1 / 10 ^ 10 : ℚ) toks with
+        | .ok (o, rest) => (o.bases.map (fun (b : IOBasis ℚ) => (b.order, b.knots, b.periodic)), o.shape,
+                            o.ncomp, o.cps, o.rational, rest.length)
+        | .error _ => ([], [], 0, [], false, 7)
+      | .error _ => ([], [], 0, [], false, 9))
+    = ([(3, [0, 0, 0, 1, 2, 2, 2], -1)], [4], 2, [[2, -1 / 2], [4, -2], [0, 1], [2, -1 / 2]], false, 0) := by
+  decide +kernel
+
+/-- It satisfies the hypotheses of `C19_g2_roundtrip_periodic` although
+    `order + k = 4 > numFunctions = 2`. -/
+theorem C19_exSmall_wf : Splipy.C19Seam.PeriodicWF (1 / 10 ^ 10 : ℚ) C19_exSmall 0 1 2 ∧
+    (C19_exSmall.basis 0).numFunctions < (C19_exSmall.basis 0).order + 1 := by
+  refine ⟨{
+    pardim := Or.inl rfl
+    dir_lt := by decide
+    shape := by decide +kernel
+    ncomp_pos := by decide
+    valid := by
+      intro d hd
+      have : d = 0 := by
+        have : d < 1 := hd
+        omega
+      subst this
+      rw [← Splipy.Basis.validB_iff]
+      decide +kernel
+    periodic_dir := by decide +kernel
+    others := by
+      intro d hd hne
+      have : d < 1 := hd
+      omega
+    sepR := by
+      intro i hi
+      have hi' : i < 7 := hi
+      interval_cases i <;> norm_num [Splipy.Obj.basis, C19_exSmall, Splipy.Basis.start, Splipy.Basis.kn]
+    sepL := by
+      intro i hi
+      have hi' : i < 7 := hi
+      interval_cases i <;> norm_num [Splipy.Obj.basis, C19_exSmall, Splipy.Basis.start, Splipy.Basis.kn] }, ?_⟩
+  decide +kernel
